@@ -198,6 +198,13 @@ func (s *Stump) add(adds []Hash) ([]Hash, []uint64, []uint64) {
 			}
 		}
 
+		// A leaf that wasn't hashed with any root is a root by itself (possibly
+		// after moving up over empty roots). Report it as well so that it's
+		// present in the returned positions even if no later add hashes with it.
+		if newRoot == add {
+			updatedNodes[add] = pos
+		}
+
 		s.Roots = append(s.Roots, newRoot)
 		s.NumLeaves++
 	}
